@@ -14,7 +14,8 @@ use easy_ml::tensors::indexing::{
     TensorAccess, TensorIterator, TensorOwnedIterator, TensorReferenceIterator, TensorReferenceMutIterator,
 };
 use easy_ml::tensors::views::{
-    IndexRange, TensorIndex, TensorMask, TensorMut, TensorRange, TensorRef, TensorReverse, TensorView,
+    IndexRange, TensorChain, TensorIndex, TensorMask, TensorMut, TensorRange, TensorRef, TensorRename,
+    TensorReverse, TensorStack, TensorView,
 };
 use easy_ml::tensors::Tensor;
 use std::cell::Cell;
@@ -329,6 +330,265 @@ fn log_index(any: &mut AnyT, spec: &str, flavour: &str) -> String {
         AnyT::D4(t) => body!(t, 3),
         AnyT::D5(t) => body!(t, 4),
         AnyT::D6(t) => body!(t, 5),
+    }
+}
+
+/// `TensorRename::from(&mut t, from)`, then `set_names(set)` under `catch_unwind`, then the view
+/// that survived is indexed by `req` (`TensorAccess::from`) and iterated
+fn log_rename<const D: usize>(
+    t: &mut Tensor<u64, D>,
+    from: &[&'static str],
+    set: &[&'static str],
+    req: &[&'static str],
+    flavour: &str,
+) -> String {
+    if from.len() != D || set.len() != D || req.len() != D {
+        return "arity".into();
+    }
+    let limit = storage_len(t).saturating_add(2).min(1 << 20);
+    let (from, set, req): ([&'static str; D], [&'static str; D], [&'static str; D]) =
+        (names_array(from), names_array(set), names_array(req));
+    let mut copy;
+    let target = if flavour == "owned" {
+        copy = t.clone();
+        &mut copy
+    } else {
+        t
+    };
+    let mut view = match catch(|| TensorRename::from(&mut *target, from)) {
+        Ok(v) => v,
+        Err(PanicKind::Explicit) => return "rejected".into(),
+        Err(k) => return panic_str(k),
+    };
+    let set_result = catch(|| view.set_names(set));
+    let head = format!(
+        "set={} names={}",
+        match set_result {
+            Ok(()) => "ok".to_string(),
+            Err(PanicKind::Explicit) => "panic".to_string(),
+            Err(k) => panic_str(k),
+        },
+        show_names(&view.view_shape().iter().map(|d| d.0).collect::<Vec<_>>())
+    );
+    match catch(move || TensorAccess::from(view, req)) {
+        Ok(a) => format!("{} {}", head, log_source(a, flavour, limit)),
+        Err(PanicKind::Explicit) => format!("{} access=rejected", head),
+        Err(k) => format!("{} {}", head, panic_str(k)),
+    }
+}
+
+// ---------------------------------------------------------------------------------------------
+// stack / chain views over several mutable tensors: accesses as <source>:<offset>
+// ---------------------------------------------------------------------------------------------
+
+#[cfg(feature = "hooks")]
+fn base_of<const D: usize>(t: &Tensor<u64, D>) -> usize {
+    use easy_ml::verif_hooks::{start_log, take_log};
+    start_log();
+    let _ = t.iter().next();
+    take_log().first().map(|a| a.base).unwrap_or(0)
+}
+
+#[cfg(feature = "hooks")]
+fn logged_multi(bases: &[usize], lens: &[usize], f: impl FnOnce()) -> String {
+    use easy_ml::verif_hooks::{start_log, take_log};
+    start_log();
+    let r = catch(f);
+    let log = take_log();
+    if let Err(k) = r {
+        return match k {
+            PanicKind::Hook => "panic(hook)".to_string(),
+            k => format!("panic ## kind={}", k.as_str()),
+        };
+    }
+    let all_ok = log.iter().all(|a| a.ok && a.offset < a.len);
+    let m = if log.iter().all(|a| a.mutable) && !log.is_empty() {
+        "mut"
+    } else if log.iter().all(|a| !a.mutable) {
+        "imm"
+    } else {
+        "MIXED"
+    };
+    let offs: Vec<String> = log
+        .iter()
+        .map(|a| match bases.iter().position(|b| *b == a.base) {
+            Some(i) => format!("{}:{}", i, a.offset),
+            None => format!("?:{}", a.offset),
+        })
+        .collect();
+    format!(
+        "accesses={} {} ## tensor {} lens={} offs={}",
+        log.len(),
+        if all_ok { "inbounds" } else { "OUT-OF-BOUNDS" },
+        m,
+        show_usizes(lens),
+        if offs.is_empty() { "-".to_string() } else { offs.join(",") }
+    )
+}
+
+#[cfg(not(feature = "hooks"))]
+fn base_of<const D: usize>(_t: &Tensor<u64, D>) -> usize {
+    0
+}
+#[cfg(not(feature = "hooks"))]
+fn logged_multi(_bases: &[usize], _lens: &[usize], _f: impl FnOnce()) -> String {
+    "no-hooks".to_string()
+}
+
+/// the requested iteration flavour or in-place map over a (stack / chain) view
+fn act_on_view<S: TensorMut<u64, D>, const D: usize>(
+    mut v: S,
+    action: &str,
+    limit: usize,
+    bases: &[usize],
+    lens: &[usize],
+) -> String {
+    match action {
+        "copy" => logged_multi(bases, lens, || TensorIterator::from(&v).take(limit).for_each(drop)),
+        "ref" => logged_multi(bases, lens, || TensorReferenceIterator::from(&v).take(limit).for_each(drop)),
+        "mut" => logged_multi(bases, lens, || TensorReferenceMutIterator::from(&mut v).take(limit).for_each(drop)),
+        "owned" => logged_multi(bases, lens, || TensorOwnedIterator::from(v).take(limit).for_each(drop)),
+        "map_mut" => logged_multi(bases, lens, || TensorView::from(v).map_mut(|x| x.wrapping_add(1))),
+        "map_mut_wi" => logged_multi(bases, lens, || {
+            TensorView::from(v).map_mut_with_index(|idx, x| x.wrapping_add(code(&idx)))
+        }),
+        _ => "bad-action".into(),
+    }
+}
+
+fn built<V>(r: Result<V, PanicKind>) -> Result<V, String> {
+    match r {
+        Ok(v) => Ok(v),
+        Err(PanicKind::Explicit) => Err("rejected".into()),
+        Err(k) => Err(panic_str(k)),
+    }
+}
+
+/// `@ zlog <chain|stack> <tuple|array> <along> <action> <shape>;<shape>;…`
+fn zlog(kind: &str, form: &str, along: &str, action: &str, shapes: &[Vec<(&'static str, usize)>]) -> String {
+    let d = shapes[0].len();
+    if shapes.iter().any(|s| s.len() != d) {
+        return "rejected".into();
+    }
+    let k = shapes.len();
+    macro_rules! go {
+        ($D:ident, $DV:expr, $make2:expr, $make3:expr, $make4:expr, $makea1:expr, $makea2:expr, $makea3:expr, $makea4:expr) => {{
+            // the sources: tensors with the values 0.. (every one of them held mutably by the view)
+            let mut ts: Vec<Tensor<u64, $D>> = vec![];
+            for (i, sh) in shapes.iter().enumerate() {
+                let n: usize = sh.iter().map(|x| x.1).product();
+                match catch(|| Tensor::<u64, $D>::from(shape_array(sh), data(n, 1000 * i as u64))) {
+                    Ok(t) => ts.push(t),
+                    Err(_) => return "rejected".into(),
+                }
+            }
+            let bases: Vec<usize> = ts.iter().map(|t| base_of(t)).collect();
+            let lens: Vec<usize> = ts.iter().map(|t| storage_len(t)).collect();
+            let limit = lens.iter().sum::<usize>().saturating_add(2);
+            let mut it = ts.iter_mut();
+            match (form, k) {
+                ("tuple", 2) => {
+                    let s = (it.next().unwrap(), it.next().unwrap());
+                    match built(catch(|| $make2(s))) {
+                        Ok(v) => act_on_view::<_, { $DV }>(v, action, limit, &bases, &lens),
+                        Err(e) => e,
+                    }
+                }
+                ("tuple", 3) => {
+                    let s = (it.next().unwrap(), it.next().unwrap(), it.next().unwrap());
+                    match built(catch(|| $make3(s))) {
+                        Ok(v) => act_on_view::<_, { $DV }>(v, action, limit, &bases, &lens),
+                        Err(e) => e,
+                    }
+                }
+                ("tuple", 4) => {
+                    let s = (it.next().unwrap(), it.next().unwrap(), it.next().unwrap(), it.next().unwrap());
+                    match built(catch(|| $make4(s))) {
+                        Ok(v) => act_on_view::<_, { $DV }>(v, action, limit, &bases, &lens),
+                        Err(e) => e,
+                    }
+                }
+                ("array", 1) => {
+                    let s = [it.next().unwrap()];
+                    match built(catch(|| $makea1(s))) {
+                        Ok(v) => act_on_view::<_, { $DV }>(v, action, limit, &bases, &lens),
+                        Err(e) => e,
+                    }
+                }
+                ("array", 2) => {
+                    let s = [it.next().unwrap(), it.next().unwrap()];
+                    match built(catch(|| $makea2(s))) {
+                        Ok(v) => act_on_view::<_, { $DV }>(v, action, limit, &bases, &lens),
+                        Err(e) => e,
+                    }
+                }
+                ("array", 3) => {
+                    let s = [it.next().unwrap(), it.next().unwrap(), it.next().unwrap()];
+                    match built(catch(|| $makea3(s))) {
+                        Ok(v) => act_on_view::<_, { $DV }>(v, action, limit, &bases, &lens),
+                        Err(e) => e,
+                    }
+                }
+                ("array", 4) => {
+                    let s = [it.next().unwrap(), it.next().unwrap(), it.next().unwrap(), it.next().unwrap()];
+                    match built(catch(|| $makea4(s))) {
+                        Ok(v) => act_on_view::<_, { $DV }>(v, action, limit, &bases, &lens),
+                        Err(e) => e,
+                    }
+                }
+                _ => "bad-form".into(),
+            }
+        }};
+    }
+    if kind == "chain" {
+        let along = intern(along);
+        macro_rules! chain_d {
+            ($n:literal) => {{
+                const D: usize = $n;
+                go!(
+                    D,
+                    D,
+                    |s| TensorChain::<u64, (_, _), D>::from(s, along),
+                    |s| TensorChain::<u64, (_, _, _), D>::from(s, along),
+                    |s| TensorChain::<u64, (_, _, _, _), D>::from(s, along),
+                    |s| TensorChain::<u64, [_; 1], D>::from(s, along),
+                    |s| TensorChain::<u64, [_; 2], D>::from(s, along),
+                    |s| TensorChain::<u64, [_; 3], D>::from(s, along),
+                    |s| TensorChain::<u64, [_; 4], D>::from(s, along)
+                )
+            }};
+        }
+        match d {
+            1 => chain_d!(1),
+            2 => chain_d!(2),
+            3 => chain_d!(3),
+            _ => "rejected".into(),
+        }
+    } else {
+        let (pos, name) = along.split_once(':').expect("pos:name");
+        let along: (usize, &'static str) = (pos.parse().expect("pos"), intern(name));
+        macro_rules! stack_d {
+            ($n:literal) => {{
+                const D: usize = $n;
+                go!(
+                    D,
+                    D + 1,
+                    |s| TensorStack::<u64, (_, _), D>::from(s, along),
+                    |s| TensorStack::<u64, (_, _, _), D>::from(s, along),
+                    |s| TensorStack::<u64, (_, _, _, _), D>::from(s, along),
+                    |s| TensorStack::<u64, [_; 1], D>::from(s, along),
+                    |s| TensorStack::<u64, [_; 2], D>::from(s, along),
+                    |s| TensorStack::<u64, [_; 3], D>::from(s, along),
+                    |s| TensorStack::<u64, [_; 4], D>::from(s, along)
+                )
+            }};
+        }
+        match d {
+            0 => stack_d!(0),
+            1 => stack_d!(1),
+            2 => stack_d!(2),
+            _ => "rejected".into(),
+        }
     }
 }
 
@@ -774,6 +1034,10 @@ impl Runner {
             "mlog" => {
                 return log_matrix(toks[1].parse().unwrap(), toks[2].parse().unwrap(), toks[3], toks[4]);
             }
+            "zlog" => {
+                let shapes: Vec<Vec<(&'static str, usize)>> = toks[5].split(';').map(parse_shape).collect();
+                return zlog(toks[1], toks[2], toks[3], toks[4], &shapes);
+            }
             "mnew" => {
                 let (r, c) = toks[1].split_once('x').expect("RxC");
                 let (r, c): (usize, usize) = (r.parse().unwrap(), c.parse().unwrap());
@@ -855,6 +1119,10 @@ impl Runner {
             "log_access" => {
                 let names = parse_names(toks[1]);
                 on_t!(any, t => log_access(t, &names, toks[2]))
+            }
+            "log_rename" => {
+                let (from, set, req) = (parse_names(toks[1]), parse_names(toks[2]), parse_names(toks[3]));
+                on_t!(any, t => log_rename(t, &from, &set, &req, toks[4]))
             }
             "log_view" if toks[1].starts_with("index:") => log_index(any, &toks[1][6..], toks[2]),
             "log_view" => on_t!(any, t => log_view(t, toks[1], toks[2])),
@@ -1070,6 +1338,9 @@ fn emit_observations(g: &mut Gen, cur: &Cur, all: bool) {
             g.op(format!("log_view {}:{}.{}.{} {}", kind, name, start, l, f));
         }
     }
+    if d >= 2 && (all || g.rng.chance(1, 3)) {
+        emit_log_rename(g, cur);
+    }
     if all || g.rng.chance(1, 2) {
         let mut ns = cur.names.clone();
         g.rng.shuffle(&mut ns);
@@ -1082,6 +1353,27 @@ fn emit_observations(g: &mut Gen, cur: &Cur, all: bool) {
         g.count(&format!("log.access.{}.{}", f, if valid { "valid" } else { "invalid" }));
         g.op(format!("log_access {} {}", names_str(&ns), f));
     }
+}
+
+/// a rename view whose setter is called with (often repeated) names; the survivor is then
+/// indexed by an ordering of the names it should have, or of the names that were refused
+fn emit_log_rename(g: &mut Gen, cur: &Cur) {
+    let d = cur.lens.len();
+    let from = pick_names(g, d);
+    let mut set = pick_names(g, d);
+    let repeated = g.rng.chance(2, 3);
+    if repeated {
+        let i = g.rng.below(d);
+        let j = (i + 1 + g.rng.below(d - 1)) % d;
+        set[j] = set[i];
+    }
+    // the request: a shuffle of the refused names (what a caller who did not notice the panic
+    // would ask for), of the names the view keeps, or of the accepted new names
+    let mut req = if repeated && g.rng.chance(1, 2) { from.clone() } else { set.clone() };
+    g.rng.shuffle(&mut req);
+    let f = *g.rng.pick(&FLAVOURS);
+    g.count(&format!("log.rename.set-{}.{}", if repeated { "repeated" } else { "unique" }, f));
+    g.op(format!("log_rename {} {} {} {}", names_str(&from), names_str(&set), names_str(&req), f));
 }
 
 /// one random mutator with valid or invalid arguments; returns the bookkeeping of the object
@@ -1375,6 +1667,87 @@ pub fn gen(g: &mut Gen) {
                 g.op(format!("@ mlog {} {} diagonal {}", rows, cols, f));
             }
         }
+    }
+    // I. the rename setter on 3-dimensional tensors whose dimensions all differ in length, every
+    // placement of a repeated name, every ordering requested afterwards
+    for lens in [vec![1usize, 3, 2], vec![2, 1, 3], vec![3, 2, 1], vec![2, 2, 3]] {
+        let names: Vec<&'static str> = NAMES[..3].to_vec();
+        for set in [["x", "x", "y"], ["x", "y", "x"], ["y", "x", "x"], ["x", "y", "z"], ["x", "x", "x"]] {
+            g.count("case.rename-setter");
+            g.op(format!("@ from {} {} 0", shape_str(&names, &lens), product(&lens)));
+            for perm in permutations(3) {
+                let req: Vec<&str> = perm.iter().map(|&i| set[i]).collect();
+                let f = FLAVOURS[(perm[0] + perm[1] * 2) % 4];
+                g.op(format!("log_rename d,e,f {} {} {}", set.join(","), req.join(","), f));
+            }
+            // and with the names the view must have kept
+            g.op(format!("log_rename d,e,f {} f,d,e mut", set.join(",")));
+            g.op("state".to_string());
+        }
+    }
+    // J. stack / chain views over 1..4 mutable tensors (tuple and array forms) whose lengths along
+    // the chained dimension differ; every iteration flavour and the in-place maps
+    let reps = if thorough { 6 } else { 1 };
+    let actions = ["copy", "ref", "mut", "owned", "map_mut", "map_mut_wi"];
+    for _ in 0..reps {
+        for (form, k) in [("tuple", 2usize), ("tuple", 3), ("tuple", 4), ("array", 1), ("array", 2), ("array", 3), ("array", 4)] {
+            for action in actions {
+                // chain
+                let d = g.rng.range(1, 3);
+                let names = pick_names(g, d);
+                let a = g.rng.below(d);
+                let other = random_lens(g, d, 6);
+                let mut along_lens: Vec<usize> = (0..k).map(|_| g.rng.range(1, 3)).collect();
+                if k == 4 && g.rng.chance(1, 2) {
+                    along_lens = vec![2, 1, 1, 3];
+                }
+                if k >= 2 && along_lens.iter().all(|l| *l == along_lens[0]) {
+                    along_lens[k - 1] = along_lens[0] % 3 + 1;
+                }
+                let bad = g.rng.chance(1, 8);
+                let shapes: Vec<String> = (0..k)
+                    .map(|i| {
+                        let mut ls = other.clone();
+                        ls[a] = along_lens[i];
+                        if bad && i == k - 1 && d >= 2 {
+                            ls[(a + 1) % d] += 1;
+                        }
+                        shape_str(&names, &ls)
+                    })
+                    .collect();
+                let along = if bad && d < 2 { "zz" } else { names[a] };
+                g.count(&format!("zlog.chain.{}{}.{}", form, k, action));
+                g.op(format!("@ zlog chain {} {} {} {}", form, along, action, shapes.join(";")));
+                // stack: identical shapes, a new dimension at every position
+                let d = g.rng.range(0, 2);
+                let names = pick_names(g, d);
+                let lens = random_lens(g, d, 6);
+                let extra = if g.rng.chance(1, 8) { 1 } else { 0 };
+                let pos = g.rng.below(d + 1 + extra);
+                let shapes: Vec<String> = (0..k)
+                    .map(|i| {
+                        let mut ls = lens.clone();
+                        if g.rng.chance(1, 12) && d >= 1 && i == k - 1 && k >= 2 {
+                            ls[0] += 1;
+                        }
+                        shape_str(&names, &ls)
+                    })
+                    .collect();
+                g.count(&format!("zlog.stack.{}{}.{}", form, k, action));
+                g.op(format!("@ zlog stack {} {}:s {} {}", form, pos, action, shapes.join(";")));
+            }
+        }
+    }
+    // every assignment of lengths 1..3 to four chained sources (tuple form, mutable paths)
+    for code4 in 0..81usize {
+        if !thorough && code4 % 3 != 0 {
+            continue;
+        }
+        let ls = [code4 % 3 + 1, code4 / 3 % 3 + 1, code4 / 9 % 3 + 1, code4 / 27 + 1];
+        let action = ["mut", "owned", "map_mut", "map_mut_wi"][code4 % 4];
+        let shapes: Vec<String> = ls.iter().map(|l| format!("a:{},b:2", l)).collect();
+        g.count("zlog.chain.tuple4.all-lengths");
+        g.op(format!("@ zlog chain tuple a {} {}", action, shapes.join(";")));
     }
     // G. matrices resized with invalid arguments, then walked (the survivor is used unguarded)
     let cases = if thorough { 400 } else { 60 };
